@@ -103,10 +103,16 @@ def wrap(v, t):
 
 def c_int_binop(op, va, ta, vb, tb):
     """C11 value (mathematical integer) of `a op b` for in-range operand values va: ta, vb: tb."""
-    if op in ("+", "-", "*"):
+    if op in ("+", "-", "*", "/"):
         rt = c11.binop_type(op, ta, tb)
         x, y = wrap(va, rt), wrap(vb, rt)   # promotion preserves the value, conversion to rt wraps
-        r = {"+": x + y, "-": x - y, "*": x * y}[op]
+        if op == "/":
+            # the quotient truncates towards zero (6.5.5p6); z3's integer division is only used on non-negative operands
+            ax, ay = z3.If(x >= 0, x, -x), z3.If(y >= 0, y, -y)
+            q = ax / z3.If(ay == 0, z3.IntVal(1), ay)
+            r = z3.If((x < 0) == (y < 0), q, -q)
+        else:
+            r = {"+": x + y, "-": x - y, "*": x * y}[op]
         return wrap(r, rt), rt
     ct = c11.compare_type(ta, tb)
     x, y = wrap(va, ct), wrap(vb, ct)
@@ -286,7 +292,8 @@ def gen_folding(loader, check, replay_on=True):
     # ---- binary arithmetic ------------------------------------------------------------------------------
     for ta in LIT_TYPES:
         for tb in LIT_TYPES:
-            for op, tok, cb in (("+", "ADD_OP", "additive_expr"), ("-", "SUB_OP", "additive_expr"), ("*", "MUL_OP", "multiplicative_expr")):
+            for op, tok, cb in (("+", "ADD_OP", "additive_expr"), ("-", "SUB_OP", "additive_expr"), ("*", "MUL_OP", "multiplicative_expr"),
+                                ("/", "DIV_OP", "multiplicative_expr")):
                 inst = f"a={tname(ta)} b={tname(tb)}"
                 name = f"{cb}({op})[fold]"
 
@@ -304,12 +311,22 @@ def gen_folding(loader, check, replay_on=True):
                     ev, et = c_int_binop(op, Va, ta, Vb, tb)
                     # C-side precondition: no signed overflow (undefined behaviour)
                     pre = []
-                    if et[0]:
+                    if op == "/":
+                        # C-side precondition: the divisor (converted to the common type) is not zero and the quotient is representable
+                        xa, xb = wrap(Va, et), wrap(Vb, et)
+                        pre = [xb != 0] + ([z3.Not(z3.And(xa == -(2 ** (et[1] - 1)), xb == -1))] if et[0] else [])
+                    elif et[0]:
                         raw = {"+": Va + Vb, "-": Va - Vb, "*": Va * Vb}[op]
                         pre = [in_range(raw, et)]
+                    if op == "/":
+                        # "an expression it cannot fold exactly (e.g. inexact or zero division) is rejected": a zero divisor never yields a literal,
+                        # and a division the compiler refuses to fold (raises) is within the property - only what it does fold must be the C quotient
+                        check.ob(f"{name}#zero-divisor-is-rejected", pi, list(p.ctx.pc) + [wrap(Vb, et) == 0], p.outcome == "raise", replay=None,
+                                 detail="a literal division by zero was folded to a value")
                     p.ctx.pc.extend(pre)
-                    check.ob(f"{name}#total", pi, p.ctx.pc, p.outcome == "return", replay=rp,
-                             detail="" if p.outcome == "return" else f"raises {p.value!r}")
+                    if op != "/":
+                        check.ob(f"{name}#total", pi, p.ctx.pc, p.outcome == "return", replay=rp,
+                                 detail="" if p.outcome == "return" else f"raises {p.value!r}")
                     if p.outcome == "return":
                         result_checks(name, pi, p, p.value, ev, et, rp)
                         h = p.state["t"].fields["il_ops_holder"]
@@ -550,8 +567,8 @@ def gen_folding(loader, check, replay_on=True):
 
 
 def gen_division_bounded(loader, check, replay_on=True):
-    """Bounded stand-in (NOT counted as proved): literal division is never folded to text - every
-    a / b with |a|, b in a small range is rejected end to end by the real compiler."""
+    """Native end-to-end witnesses next to the fold contract of `/` (which decides the clause for all literal values): `RdV = a / b`
+    through the real compiler writes the C quotient or is rejected, and a zero divisor is always rejected."""
     from rzilcompiler.Compiler import Compiler
     from rzilcompiler.ArchEnum import ArchEnum
     cwd = os.getcwd()
@@ -568,13 +585,16 @@ def gen_division_bounded(loader, check, replay_on=True):
                 n += 1
                 try:
                     txt = c.compile_c_stmt(f"{{ RdV = {a} / {b}; }}")
-                    bad.append(f"{a}/{b} -> {[l for l in txt.splitlines() if 'WRITE_REG' in l]}")
                 except Exception:
-                    pass
-        check.ob("simplify_arithmetic_expr(/)#rejected-end-to-end", f"bounded: {n} literal pairs", [], not bad, bounded=True,
-                 detail="; ".join(bad[:3]))
-        check.bounded.append(f"literal division: {n} concrete (a, b) pairs compiled natively with the real Compiler; all must raise "
-                             "(z3 cannot decide the float formatting path: float model is outside the VC generator)")
+                    continue            # rejected: within the property for every pair (and required for b == 0)
+                m = re.search(r"WRITE_REG\(bundle, Rd_op, (.*)\);", txt)
+                lit = re.search(r"[SU]N\(\d+, (-?(?:0x[0-9a-fA-F]+|\d+))\)", m.group(1) if m else "")
+                got = int(lit.group(1), 0) if lit else None
+                if b == 0 or got is None or (got - a // b) % (2 ** 32) != 0:
+                    bad.append(f"{a}/{b} -> {m.group(1) if m else txt[-80:]}")
+        check.ob("simplify_arithmetic_expr(/)#end-to-end: a folded quotient reaches the emitted text unchanged, a zero divisor is rejected", f"bounded: {n} literal pairs", [], not bad,
+                 bounded=True, detail="; ".join(bad[:3]))
+        check.notes.append(f"literal division: {n} concrete (a, b) pairs are additionally compiled natively end to end (the fold contract of `/` covers all values)")
     finally:
         os.chdir(cwd)
 
